@@ -1,7 +1,8 @@
 --------------------------- MODULE TextBlocksTrace ---------------------------
 (* code -> spec for C50: records of real read_bytes / read_text calls.
    [kind |-> "bytes", f, dl, blocks]      blocks as read (sequences of symbols)
-   [kind |-> "text",  fs, dl, lines]      lines returned by read_text for the files fs (in order) *)
+   [kind |-> "text",  fs, dl, lines]      lines returned by read_text for the files fs (in order)
+   [kind |-> "parts", nfiles, fpp, nparts] read_text(files_per_partition = fpp) on nfiles files built nparts partitions *)
 EXTENDS TextBlocks, TraceIO
 
 Bad(r) ==
@@ -10,6 +11,9 @@ Bad(r) ==
        \cup Clause("BoundaryAfterDelimiter",
                    \A i \in 2..Len(r.blocks) :
                       LET start == SumLen(SubSeq(r.blocks, 1, i - 1)) IN start = Len(r.f) \/ EndsDelimAt(r.f, r.dl, start))
+  ELSE IF r.kind = "parts"
+  THEN \* every file belongs to exactly one partition, fpp files per partition, the last one may be short
+       Clause("PartitionCount", r.nparts = (r.nfiles + r.fpp - 1) \div r.fpp)
   ELSE \* strict, as the statement says; for a self-overlapping delimiter the block-wise parse is
        \* genuinely ambiguous (TextBlocksMC!BlockwiseLinesEqual) - the driver classifies such a
        \* rejection separately
